@@ -143,10 +143,13 @@ HistSJumpWith(t, pos, occ) == [HistSJump(t) EXCEPT !.posAtNext = pos, !.occAtNex
 HistSNext(h, m, t, o) ==
   [joins |-> h.joins + (IF o.op = "Join" /\ o.res = "" THEN 1 ELSE 0),
    leaves |-> h.leaves + (IF o.op = "Leave" /\ o.res = "" THEN 1 ELSE 0)
-                       + (IF o.op = "MT.Apply" THEN Cardinality({j \in 1..Len(o.cbs) : o.cbs[j][1] = "left"}) ELSE 0),
+                       + (IF o.op = "MT.Apply" THEN Cardinality({j \in 1..Len(o.cbs) : o.cbs[j][1] = "left"}) ELSE 0)
+                       + (IF o.op = "Reset" /\ o.res = "" THEN Cardinality(Occupied(m)) ELSE 0),   \* Reset sends everybody away
    track |-> TrackNext(h, m, t, o),
-   occAtNext |-> IF NextOK(o) THEN Occupied(t) ELSE h.occAtNext,
-   posAtNext |-> IF NextOK(o) THEN <<t.dealer, t.sb, t.bb>> ELSE h.posAtNext,
+   \* Reset empties the table: the hand the last move set up is void, nobody "stays put" across it (no late-joiner
+   \* tracking until the next successful move); where the button was is still a fact (lastDealer)
+   occAtNext |-> IF NextOK(o) THEN Occupied(t) ELSE IF o.op = "Reset" THEN {} ELSE h.occAtNext,
+   posAtNext |-> IF NextOK(o) THEN <<t.dealer, t.sb, t.bb>> ELSE IF o.op = "Reset" THEN <<NULL, NULL, NULL>> ELSE h.posAtNext,
    lastDealer |-> IF o.op \in {"Next", "MT.Apply"} THEN t.dealer ELSE h.lastDealer]
 
 N(name, holds) == IF holds THEN {} ELSE {name}
